@@ -69,6 +69,8 @@ func main() {
 		os.Exit(cmdCheck(os.Args[2:]))
 	case "lang":
 		os.Exit(cmdLang(os.Args[2:]))
+	case "sweep":
+		os.Exit(cmdSweep(os.Args[2:]))
 	default:
 		fmt.Fprintln(os.Stderr, "unknown command", os.Args[1])
 		os.Exit(2)
